@@ -1,7 +1,7 @@
 (* Persist/PInvOps.v — port of Core/DInvOps.v: every level function of the persist-mode model
    preserves the invariant [DInv] and meets its specification (weakest-precondition proofs, then
-   one induction on the level).  Panics that may escape: see [dallowed] (backdate violation,
-   injected fault, uninitialised function ingredient). *)
+   one induction on the level).  Panics that may escape: see [dallowed] (injected fault,
+   uninitialised function ingredient); the backdate-violation assertion is unreachable. *)
 From Salsa Require Import Base.
 From Salsa.Kern Require Import CoreK CoreKFacts.
 From Salsa.Core Require Import Model Spec SpecProofs Inv DurSem.
@@ -18,20 +18,22 @@ Hypothesis Hbound : forall q, (rank q < NF)%nat.
 Variable fm : bool.
 Variable H : hist.
 Variable D : dhist.
+Variable F : ghost.
 Notation E := (E prog NF H).
 Notation tr := (tr prog NF H).
 Notation envat := (envat prog NF H).
 Notation durge := (durge prog NF H D).
 Notation clos := (clos prog NF H).
-Notation dmemo_ok := (dmemo_ok prog NF fm H D).
-Notation DInv := (DInv prog NF fm H D).
-Notation dext := (dext prog NF H D).
+Notation dmemo_ok := (dmemo_ok prog NF fm H D F).
+Notation DInv := (DInv prog NF fm H D F).
+Notation dext := (dext prog NF H D F).
+Notation sle := (fun s => PInv.sle s F).
 Notation obs_ok := (obs_ok prog NF H D).
 Notation good := (good prog NF fm H D).
 Notation dtouch_below := (dtouch_below rank).
 Notation dallowed := (PInv.dallowed).
 Notation stack_ok := (stack_ok rank).
-Notation covers := (PInvSem.covers).
+Notation covers := (PInvSem.covers F).
 
 Ltac conj := repeat match goal with |- _ /\ _ => split end.
 
@@ -45,6 +47,7 @@ Proof.
   - intros q m Hq Hv. exists m. rewrite Hm. split; [exact Hq|]. split; [exact Hv | lia].
   - intros q m' Hq _. rewrite <- Hm. exact Hq.
   - intros g w k Ho. apply (obs_ok_same prog NF H D s s'); assumption.
+  - intros d c Hc. exists c. split; [|lia]. rewrite (phi_same s s' F d Hm). exact Hc.
 Qed.
 
 Lemma dtouch_of_core_eq s s' k : dcore_eq s s' -> dtouch_below s s' k.
@@ -72,7 +75,7 @@ Lemma emit_ok e s s0 (Q : unit -> db -> Prop) :
 Proof.
   intros HI He HQ. apply wp_emit.
   assert (Hce : dcore_eq s (set_log s (e :: d_log s))) by apply dcore_eq_log.
-  apply HQ; try reflexivity; [exact Hce | apply (DInv_core_eq prog NF fm H D s); assumption |].
+  apply HQ; try reflexivity; [exact Hce | apply (DInv_core_eq prog NF fm H D F s); assumption |].
   apply dext_of_core_eq; [exact Hce | reflexivity | auto].
 Qed.
 
@@ -148,7 +151,7 @@ Proof.
     { intros s1 Hce HI1 _. pose proof (dcore_eq_cur _ _ Hce) as Hc1.
       destruct Hce as (Hr & _ & _ & Hmm).
       rewrite <- Hc1.
-      apply (shortcut_ok prog rank Hrank NF Hbound fm H D s1 q m HI1).
+      apply (shortcut_ok prog rank Hrank NF Hbound fm F H D s1 q m HI1).
       - rewrite Hmm. exact Hm.
       - unfold lcs in *. rewrite Hr. exact Hlc. }
     pose proof (mark_verified_ok q m s s0 He0 HI Hm Hjust) as Hmv.
@@ -178,7 +181,7 @@ Definition mca_spec (L : lower) (n : nat) : Prop :=
 
 Lemma XP_trans s0 s1 p s' : dext s0 s1 -> XP s1 p s' -> XP s0 p s'.
 Proof.
-  intros He (Ha & HI & He'). split; [apply (dallowed_ext s0 s1); [apply (ext_pcell _ _ _ _ _ _ He) | apply (ext_init _ _ _ _ _ _ He) | exact Ha]|].
+  intros He (Ha & HI & He'). split; [apply (dallowed_ext s0 s1); [apply (ext_pcell _ _ _ _ _ _ _ He) | apply (ext_init _ _ _ _ _ _ _ He) | exact Ha]|].
   split; [exact HI|].
   eapply dext_trans; eassumption.
 Qed.
@@ -208,13 +211,13 @@ Proof.
         -- exact Hst.
         -- intros b s' (HI' & He & Ht & Hs & Hb). conj; auto.
            intros Hbf e [<- | He']; [|apply Hb; assumption].
-           cbn. rewrite (ext_in _ _ _ _ _ _ He). exact Hca.
+           cbn. rewrite (ext_in _ _ _ _ _ _ _ He). exact Hca.
     + destruct (Hes d (or_introl eq_refl)) as (Hdn & Hdq).
       apply wp_bind.
       eapply wp_conseq; [apply (HM d (m_verified m) s Hdn HI) | |intros; assumption].
       { intros p Hp. specialize (Hst p Hp). lia. }
       intros c s1 (HI1 & He1 & Ht1 & Hs1 & Hc).
-      pose proof (dext_cur _ _ _ _ _ _ He1) as Hcur1.
+      pose proof (dext_cur _ _ _ _ _ _ _ He1) as Hcur1.
       assert (Hm1 : d_memo s1 q = Some m) by (rewrite (Ht1 q) by lia; exact Hm).
       assert (He01 : dext s0 s1) by (eapply dext_trans; eassumption).
       destruct c.
@@ -223,29 +226,29 @@ Proof.
             [lia | lia | exact Ht1 | apply dtouch_refl]. }
         split; [exact Hs1|]. discriminate.
       * destruct (Hc eq_refl) as (md & Hmd & Hvd & Hcd).
-        pose proof (inv_memo _ _ _ _ _ _ HI1 q m Hm1) as Hok.
-        pose proof (inv_memo _ _ _ _ _ _ HI1 d md Hmd) as Hokd.
+        pose proof (inv_memo _ _ _ _ _ _ _ HI1 q m Hm1) as Hok.
+        pose proof (inv_memo _ _ _ _ _ _ _ HI1 d md Hmd) as Hokd.
         eapply wp_conseq; [apply (IH s1 HI1 He01 Hm1) | |].
         -- intros d' Hd'. apply (Hes d' (or_intror Hd')).
         -- rewrite Hs1. exact Hst.
         -- intros b s' (HI' & He & Ht & Hs & Hb).
-           pose proof (dext_cur _ _ _ _ _ _ He) as Hcur'.
+           pose proof (dext_cur _ _ _ _ _ _ _ He) as Hcur'.
            split; [exact HI'|]. split; [eapply dext_trans; eassumption|]. split.
            { eapply dtouch_trans with (k1 := S (rank d)) (k2 := rank q);
                [lia | lia | exact Ht1 | exact Ht]. }
            split; [congruence|].
            intros Hbf e [<- | He']; [|apply (Hb Hbf e He')].
-           destruct (ext_vcur _ _ _ _ _ _ He d md Hmd) as (md' & Hmd' & Hvd' & Hdd'); [congruence|].
+           destruct (ext_vcur _ _ _ _ _ _ _ He d md Hmd) as (md' & Hmd' & Hvd' & Hdd'); [congruence|].
            cbn. split; [exists md'; split; [exact Hmd' | congruence]|]. split.
            ++ intros g w k Hog Hvw Hcl.
-              pose proof (ext_obs _ _ _ _ _ _ He01 g w k Hog) as Hog1.
+              pose proof (ext_obs _ _ _ _ _ _ _ He01 g w k Hog) as Hog1.
               destruct (ob_obs _ _ _ _ _ _ _ _ Hog1 d md Hcl Hmd) as [A _]; [left; lia|].
               rewrite A. congruence.
            ++ intros Hcl.
-              destruct (mo_obs _ _ _ _ _ _ _ _ Hok d md Hcl Hmd) as [_ Hdd]; [left; exact Hcd|].
+              destruct (mo_obs _ _ _ _ _ _ _ _ _ Hok d md Hcl Hmd) as [_ Hdd]; [left; exact Hcd|].
               split.
               ** rewrite Hcur', Hcur1, <- Hvd. eapply durge_mono; [exact Hdd|].
-                 apply (mo_durge _ _ _ _ _ _ _ _ Hokd).
+                 apply (mo_durge _ _ _ _ _ _ _ _ _ Hokd).
               ** exists md'. split; [exact Hmd' | lia].
         -- intros p s' Hx. eapply XP_trans; eassumption.
 Qed.
@@ -262,24 +265,24 @@ Lemma deep_verify_ok L n q m s (HM : mca_spec L n) :
   wp (deep_verify L q m) (verify_post s q m) (XP s) s.
 Proof.
   intros Hn HI Hm Hnsh Hst. unfold deep_verify.
-  pose proof (inv_memo _ _ _ _ _ _ HI q m Hm) as Hok.
+  pose proof (inv_memo _ _ _ _ _ _ _ HI q m Hm) as Hok.
   (* the short-cut failed: in flat mode the memo's durability is LOW *)
   assert (Hflat : m_dur m = 0 \/ forall d, In (RQ d) (tr (m_verified m) q) -> In (EQ d) (m_edges m)).
-  { destruct (mo_flat _ _ _ _ _ _ _ _ Hok) as [Hf | Hdir]; [|right; exact Hdir].
+  { destruct (mo_flat _ _ _ _ _ _ _ _ _ Hok) as [Hf | Hdir]; [|right; exact Hdir].
     left. destruct (N.eq_dec (m_dur m) 0) as [Hz | Hnz]; [exact Hz|].
     exfalso. apply Hnsh.
-    pose proof (inv_lowrev _ _ _ _ _ _ HI Hf (m_dur m)) as Hl.
-    pose proof (mo_order _ _ _ _ _ _ _ _ Hok). lia. }
+    pose proof (inv_lowrev _ _ _ _ _ _ _ HI Hf (m_dur m)) as Hl.
+    pose proof (mo_order _ _ _ _ _ _ _ _ _ Hok). lia. }
   destruct (m_untracked m) eqn:Hu.
   - apply wp_ret. unfold verify_post; cbn [fst snd].
     split; [exact HI|]. split; [apply dext_refl|]. split; [apply dtouch_refl|].
     split; [reflexivity|]. split; [discriminate | reflexivity].
   - apply wp_bind.
-    eapply wp_conseq; [apply (walk_edges_ok L n q m s HM (m_edges m) s HI (dext_refl _ _ _ _ s) Hm) | |intros; assumption].
-    { intros d Hd. pose proof (reach_rank prog rank Hrank q d (mo_edges_reach _ _ _ _ _ _ _ _ Hok d Hd)). lia. }
+    eapply wp_conseq; [apply (walk_edges_ok L n q m s HM (m_edges m) s HI (dext_refl _ _ _ _ _ s) Hm) | |intros; assumption].
+    { intros d Hd. pose proof (reach_rank prog rank Hrank q d (mo_edges_reach _ _ _ _ _ _ _ _ _ Hok d Hd)). lia. }
     { exact Hst. }
     intros c s1 (HI1 & He1 & Ht1 & Hs1 & Hc).
-    pose proof (dext_cur _ _ _ _ _ _ He1) as Hcur1.
+    pose proof (dext_cur _ _ _ _ _ _ _ He1) as Hcur1.
     assert (Hm1 : d_memo s1 q = Some m) by (rewrite (Ht1 q) by lia; exact Hm).
     destruct c.
     + apply wp_ret. unfold verify_post; cbn [fst snd].
@@ -295,7 +298,7 @@ Proof.
       { intros s2 Hce HI2 He12. pose proof (dcore_eq_cur _ _ Hce) as Hc2.
         destruct Hce as (Hr2 & Hi2 & _ & Hmm2).
         rewrite <- Hc2.
-        apply (deep_ok prog rank Hrank NF Hbound fm H D s s2 q m HI HI2);
+        apply (deep_ok prog rank Hrank NF Hbound fm F H D s s2 q m HI HI2);
           [eapply dext_trans; eassumption | exact Hm | rewrite Hmm2; exact Hm1 | exact Hu | exact Hflat|].
         intros e He. specialize (Hc e He). destruct e as [i | d]; cbn in Hc |- *.
         - rewrite Hi2. exact Hc.
@@ -323,12 +326,12 @@ Proof.
   apply wp_bind, wp_get.
   destruct (shallow_verify s m) eqn:Hsh.
   - apply wp_bind.
-    eapply wp_conseq; [apply (update_shallow_ok q m s ShVerified s (dext_refl _ _ _ _ s) HI Hm Hsh); discriminate | |intros; assumption].
+    eapply wp_conseq; [apply (update_shallow_ok q m s ShVerified s (dext_refl _ _ _ _ _ s) HI Hm Hsh); discriminate | |intros; assumption].
     intros m' s' Hv. apply wp_ret. unfold verify_post; cbn [fst snd].
     pose proof Hv as (A & B & C & D0 & _).
     conj; auto. discriminate.
   - apply wp_bind.
-    eapply wp_conseq; [apply (update_shallow_ok q m s ShHigher s (dext_refl _ _ _ _ s) HI Hm Hsh); discriminate | |intros; assumption].
+    eapply wp_conseq; [apply (update_shallow_ok q m s ShHigher s (dext_refl _ _ _ _ _ s) HI Hm Hsh); discriminate | |intros; assumption].
     intros m' s' Hv. apply wp_ret. unfold verify_post; cbn [fst snd].
     pose proof Hv as (A & B & C & D0 & _).
     conj; auto. discriminate.
@@ -350,14 +353,17 @@ Qed.
 
 Lemma covers_ext s s' pre fr : dext s s' -> covers s pre fr -> covers s' pre fr.
 Proof.
-  intros He [a b c d f g h i]. pose proof (dext_cur _ _ _ _ _ _ He) as Hc.
-  constructor; rewrite ?Hc, ?(ext_in _ _ _ _ _ _ He); auto.
+  intros He [a b c d f f1 f2 g h i]. pose proof (dext_cur _ _ _ _ _ _ _ He) as Hc.
+  constructor; rewrite ?Hc, ?(ext_in _ _ _ _ _ _ _ He); auto.
   - intros d0 Hd0. destruct (b d0 Hd0) as (md & Hmd & Hv & Hx & Hrest).
-    exists md. split; [apply (ext_valid _ _ _ _ _ _ He); assumption|]. split; [exact Hv|]. split; assumption.
+    exists md. split; [apply (ext_valid _ _ _ _ _ _ _ He); assumption|]. split; [exact Hv|]. split; assumption.
+  - destruct f2 as [A | (x & Hx & Hs)]; [left; exact A | right].
+    exists x. split; [exact Hx|].
+    apply (sle_mono s s' F _ x (ext_in _ _ _ _ _ _ _ He) (ext_mono _ _ _ _ _ _ _ He) Hs).
   - intros k Hk Hki Hkq Hku. apply i; try assumption.
     intros d0 Hd0 md Hmd. destruct (b d0 Hd0) as (md0 & Hmd0 & Hv & Hx & _).
     rewrite Hmd in Hmd0. injection Hmd0 as <-.
-    apply (Hkq d0 Hd0). apply (ext_valid _ _ _ _ _ _ He); assumption.
+    apply (Hkq d0 Hd0). apply (ext_valid _ _ _ _ _ _ _ He); assumption.
 Qed.
 
 Lemma covers_add_in s pre fr i :
@@ -365,8 +371,8 @@ Lemma covers_add_in s pre fr i :
   covers s (pre ++ [RIn i])
          (add_read fr (EIn i) (f_dur (d_in s i)) (f_changed (d_in s i))).
 Proof.
-  intros HI [a b c d e f g h].
-  pose proof (inv_in_le _ _ _ _ _ _ HI i) as Hle.
+  intros HI [a b c d e e1 e2 f g h].
+  pose proof (inv_in_le _ _ _ _ _ _ _ HI i) as Hle.
   unfold add_read, dur_min, rev_max.
   constructor; cbn [fr_dur fr_changed fr_edges fr_untracked].
   - intros j Hj. apply in_app_iff in Hj. destruct Hj as [Hj | [Hj | []]].
@@ -375,15 +381,20 @@ Proof.
     + injection Hj as <-. split; [|split; lia].
       apply In_add_edge; right; reflexivity.
   - intros d0 Hd0. apply in_app_iff in Hd0. destruct Hd0 as [Hd0 | [Hd0 | []]]; [|discriminate].
-    destruct (b d0 Hd0) as (md & A & B & C & D0 & E0 & F).
+    destruct (b d0 Hd0) as (md & A & B & C & D0 & E0 & F0).
     exists md. conj; auto; try lia.
-    apply In_add_edge; left; exact F.
+    apply In_add_edge; left; exact F0.
   - intros x Hx Hk. apply in_app_iff in Hx. destruct Hx as [Hx | [Hx | []]].
     + destruct (c x Hx Hk) as (A & B & C). conj; auto; lia.
     + subst x. destruct Hk as [Hk | (c0 & Hk)]; discriminate.
   - intros d0 Hd0. apply in_app_iff. left. apply d.
     apply In_add_edge in Hd0. destruct Hd0 as [Hd0 | Hd0]; [exact Hd0 | discriminate].
   - lia.
+  - lia.
+  - destruct (N.max_spec (fr_changed fr) (f_changed (d_in s i))) as [[Hlt ->] | [Hge ->]].
+    + right. exists (RIn i). split; [apply in_app_iff; right; left; reflexivity | cbn; lia].
+    + destruct e2 as [A | (x & Hx & Hs)]; [left; exact A | right].
+      exists x. split; [apply in_app_iff; left; exact Hx | exact Hs].
   - lia.
   - intros Hu. rewrite (g Hu). lia.
   - intros k Hk Hki Hkq Hku.
@@ -401,18 +412,18 @@ Lemma covers_add_q s pre fr d md :
   d_memo s d = Some md -> m_verified md = cur s -> m_val md <> None ->
   covers s (pre ++ [RQ d]) (add_read fr (EQ d) (m_dur md) (m_changed md)).
 Proof.
-  intros HI [a b c dd e f g h] Hmd Hv Hx.
-  pose proof (inv_memo _ _ _ _ _ _ HI d md Hmd) as Hok.
-  pose proof (mo_order _ _ _ _ _ _ _ _ Hok) as (_ & Hcv & Hvc).
+  intros HI [a b c dd e e1 e2 f g h] Hmd Hv Hx.
+  pose proof (inv_memo _ _ _ _ _ _ _ HI d md Hmd) as Hok.
+  pose proof (mo_order _ _ _ _ _ _ _ _ _ Hok) as (_ & Hcv & Hvc).
   unfold add_read, dur_min, rev_max.
   constructor; cbn [fr_dur fr_changed fr_edges fr_untracked].
   - intros j Hj. apply in_app_iff in Hj. destruct Hj as [Hj | [Hj | []]]; [|discriminate].
     destruct (a j Hj) as (A & B & C). split; [|split; lia].
     apply In_add_edge; left; exact A.
   - intros d0 Hd0. apply in_app_iff in Hd0. destruct Hd0 as [Hd0 | [Hd0 | []]].
-    + destruct (b d0 Hd0) as (md0 & A & B & C & D0 & E0 & F).
+    + destruct (b d0 Hd0) as (md0 & A & B & C & D0 & E0 & F0).
       exists md0. conj; auto; try lia.
-      apply In_add_edge; left; exact F.
+      apply In_add_edge; left; exact F0.
     + injection Hd0 as <-. exists md. conj; auto; try lia.
       apply In_add_edge; right; reflexivity.
   - intros x Hxx Hk. apply in_app_iff in Hxx. destruct Hxx as [Hxx | [Hxx | []]].
@@ -421,6 +432,12 @@ Proof.
   - intros d0 Hd0. apply in_app_iff.
     apply In_add_edge in Hd0. destruct Hd0 as [Hd0 | Hd0]; [left; apply dd; exact Hd0 | right; left; congruence].
   - lia.
+  - lia.
+  - destruct (N.max_spec (fr_changed fr) (m_changed md)) as [[Hlt ->] | [Hge ->]].
+    + right. exists (RQ d). split; [apply in_app_iff; right; left; reflexivity|].
+      cbn. exists (m_changed md). split; [unfold PInv.phi; rewrite Hmd; reflexivity | lia].
+    + destruct e2 as [A | (x & Hxx & Hs)]; [left; exact A | right].
+      exists x. split; [apply in_app_iff; left; exact Hxx | exact Hs].
   - lia.
   - intros Hu. rewrite (g Hu). lia.
   - intros k Hk Hki Hkq Hku.
@@ -438,20 +455,23 @@ Lemma covers_add_untracked s pre fr x :
   DInv s -> covers s pre fr -> untr x ->
   covers s (pre ++ [x]) (add_untracked fr (cur s)).
 Proof.
-  intros HI [a b c d e f g h] Hx.
+  intros HI [a b c d e e1 e2 f g h] Hx.
   unfold add_untracked, D_LOW.
   constructor; cbn [fr_dur fr_changed fr_edges fr_untracked].
   - intros j Hj. apply in_app_iff in Hj. destruct Hj as [Hj | [Hj | []]].
-    + destruct (a j Hj) as (A & B & C). conj; auto; [apply (inv_in_le _ _ _ _ _ _ HI) | lia].
+    + destruct (a j Hj) as (A & B & C). conj; auto; [apply (inv_in_le _ _ _ _ _ _ _ HI) | lia].
     + subst x. destruct Hx as [Hx | (c0 & Hx)]; discriminate.
   - intros d0 Hd0. apply in_app_iff in Hd0. destruct Hd0 as [Hd0 | [Hd0 | []]].
-    + destruct (b d0 Hd0) as (md0 & A & B & C & D0 & E0 & F).
-      pose proof (mo_order _ _ _ _ _ _ _ _ (inv_memo _ _ _ _ _ _ HI d0 md0 A)).
+    + destruct (b d0 Hd0) as (md0 & A & B & C & D0 & E0 & F0).
+      pose proof (mo_order _ _ _ _ _ _ _ _ _ (inv_memo _ _ _ _ _ _ _ HI d0 md0 A)).
       exists md0. conj; auto; try lia.
     + subst x. destruct Hx as [Hx | (c0 & Hx)]; discriminate.
   - intros y Hy Hk. conj; reflexivity.
   - intros d0 Hd0. apply in_app_iff. left. apply d; exact Hd0.
   - lia.
+  - apply (inv_cur _ _ _ _ _ _ _ HI).
+  - right. exists x. split; [apply in_app_iff; right; left; reflexivity|].
+    destruct Hx as [-> | (c0 & ->)]; exact I.
   - lia.
   - intros _; reflexivity.
   - intros k Hk Hki Hkq Hku.
@@ -479,7 +499,7 @@ Proof.
   - (* RdIn *)
     apply wp_bind, wp_get.
     assert (Hval : e_in (envat c0) i = f_val (d_in s i)).
-    { cbn. apply (inv_in _ _ _ _ _ _ HI); [rewrite <- Hc; apply (inv_in_le _ _ _ _ _ _ HI) | lia]. }
+    { cbn. apply (inv_in _ _ _ _ _ _ _ HI); [rewrite <- Hc; apply (inv_in_le _ _ _ _ _ _ _ HI) | lia]. }
     cbn [trace run] in Htr, HE. rewrite Hval in Htr, HE.
     apply (IH (f_val (d_in s i)) (pre ++ [RIn i]) _ s Hc).
     + rewrite <- app_assoc. exact Htr.
@@ -495,7 +515,7 @@ Proof.
     { intros p Hp. specialize (Hst p Hp). lia. }
     intros [[v dd] cd] s1 (HI1 & He1 & Ht1 & Hs1 & Hv & (md & Hmd & Hvd & Hxd & Hdd & Hcd)).
     cbn [fst snd] in *.
-    pose proof (dext_cur _ _ _ _ _ _ He1) as Hc1.
+    pose proof (dext_cur _ _ _ _ _ _ _ He1) as Hc1.
     assert (Hval : e_q (envat c0) d = v).
     { cbn. rewrite Hv, Hc. reflexivity. }
     cbn [trace run] in Htr, HE. rewrite Hval in Htr, HE.
@@ -519,7 +539,7 @@ Proof.
   - (* RdCell *)
     apply wp_bind, wp_get.
     assert (Hval : e_cell (envat c0) c = d_cell s c).
-    { cbn. rewrite <- Hc. apply (inv_cell _ _ _ _ _ _ HI). }
+    { cbn. rewrite <- Hc. apply (inv_cell _ _ _ _ _ _ _ HI). }
     cbn [trace run] in Htr, HE. rewrite Hval in Htr, HE.
     apply (IH (d_cell s c) (pre ++ [RCell c]) _ s Hc).
     + rewrite <- app_assoc. exact Htr.
@@ -544,7 +564,7 @@ Proof.
     destruct (d_pcell s pc =? 0) eqn:Hpc.
     + apply (IH pre fr s Hc); try assumption.
       intros d Hd. apply Hcalls. eapply calls_in_panicif; exact Hd.
-    + apply wp_fail. split; [right; left; split; [reflexivity | exists pc; apply N.eqb_neq; exact Hpc]|].
+    + apply wp_fail. split; [left; split; [reflexivity | exists pc; apply N.eqb_neq; exact Hpc]|].
       split; [exact HI | apply dext_refl].
 Qed.
 
@@ -566,7 +586,7 @@ Lemma store_fresh_ok q s0 s2 v fr ch old :
   d_memo (store s2 q m) q = Some m.
 Proof.
   intros HI2 He Ht Hcv Hv Hold Hnv Hch m.
-  destruct (fresh_store_ok prog rank Hrank NF Hbound fm H D s2 q fr v ch old HI2 Hcv Hv Hold Hnv Hch)
+  destruct (fresh_store_ok prog rank Hrank NF Hbound fm F H D s2 q fr v ch old HI2 Hcv Hv Hold Hnv Hch)
     as [HI3 He3].
   split; [exact HI3|]. split; [eapply dext_trans; eassumption|]. split.
   { eapply dtouch_trans with (k1 := rank q) (k2 := S (rank q));
@@ -591,10 +611,10 @@ Proof.
   - apply (E_unfold prog rank Hrank NF Hbound).
   - intros d Hd. pose proof (Hrank q d Hd). split; lia.
   - exact HI1.
-  - apply covers_frame0. apply (inv_cur _ _ _ _ _ _ HI1).
+  - apply covers_frame0. apply (inv_cur _ _ _ _ _ _ _ HI1).
   - rewrite Hst01. exact Hst.
   - intros [v fr] s2 (HI2 & He2 & Ht2 & Hs2 & Hv & Hcv). cbn [fst snd] in *.
-    pose proof (dext_cur _ _ _ _ _ _ He2) as Hc2. rewrite Hcur01 in Hc2.
+    pose proof (dext_cur _ _ _ _ _ _ _ He2) as Hc2. rewrite Hcur01 in Hc2.
     apply wp_bind, wp_get.
     assert (He02 : dext s s2) by (eapply dext_trans; eassumption).
     assert (Ht02 : dtouch_below s s2 (rank q)).
@@ -627,8 +647,10 @@ Proof.
         -- apply andb_true_iff in Hbk. destruct Hbk as [Hbk Hbd].
            apply andb_true_iff in Hbk. destruct Hbk as [Hbk _]. apply can_backdate_dur_spec in Hbk.
            destruct (changed_after (m_changed o) (fr_changed fr)) eqn:Hca.
-           ++ (* the backdate-violation assertion: an allowed panic *)
-              apply wp_fail. split; [left; reflexivity|]. split; [exact HI2 | exact He02].
+           ++ (* the backdate-violation assertion is unreachable: stamps never decrease *)
+              exfalso. apply changed_after_spec in Hca.
+              pose proof (phi_frame_lb prog NF fm F H D s2 q fr (m_changed o) HI2 Hcv') as Hlb.
+              unfold PInv.phi in Hlb. rewrite Hold2 in Hlb. specialize (Hlb eq_refl). lia.
            ++ apply (Hfin (m_changed o)). right. exists o, ov. conj; auto. apply N.eqb_eq in Hbd. exact Hbd.
         -- apply (Hfin (fr_changed fr)). left; reflexivity.
       * apply (Hfin (fr_changed fr)). left; reflexivity.
@@ -671,7 +693,7 @@ Proof.
   apply wp_bind. apply claim_ok; [exact Hst|].
   set (s1 := set_stack s (q :: d_stack s)).
   assert (Hce : dcore_eq s s1) by apply dcore_eq_stack.
-  assert (HI1 : DInv s1) by (apply (DInv_core_eq prog NF fm H D s); assumption).
+  assert (HI1 : DInv s1) by (apply (DInv_core_eq prog NF fm H D F s); assumption).
   assert (He01 : dext s s1) by apply dext_set_stack.
   assert (Hst1 : forall p, In p (d_stack s1) -> (rank q <= rank p)%nat) by (apply stacked; exact Hst).
   apply wp_bind, wp_get. change (d_memo s1 q) with (d_memo s q).
@@ -683,7 +705,7 @@ Proof.
                 match m_val m with Some v => ret (m, v) | None => nofuel end)
                (got s q) (XP s) s2).
   { intros s2 HI2 He2 Ht2 Hs2 Hm2.
-    pose proof (dext_cur _ _ _ _ _ _ He2) as Hc2. change (cur s1) with (cur s) in Hc2.
+    pose proof (dext_cur _ _ _ _ _ _ _ He2) as Hc2. change (cur s1) with (cur s) in Hc2.
     apply wp_bind.
     eapply wp_conseq; [apply (execute_ok L n q s2 (d_memo s q) HF Hn HI2 Hm2) | |].
     - intros m0 A B. apply Hnv; [exact A | congruence].
@@ -694,7 +716,7 @@ Proof.
       set (s4 := set_stack s3 (tl (d_stack s3))).
       assert (Hce4 : dcore_eq s3 s4) by apply dcore_eq_stack.
       unfold got; cbn [fst snd].
-      split; [apply (DInv_core_eq prog NF fm H D s3); assumption|].
+      split; [apply (DInv_core_eq prog NF fm H D F s3); assumption|].
       split; [eapply dext_trans; [exact He01|]; eapply dext_trans; [exact He2|];
               eapply dext_trans; [exact He3 | apply dext_set_stack]|].
       split.
@@ -718,7 +740,7 @@ Proof.
            apply wp_bind. unfold release. apply wp_modify. apply wp_ret.
            set (s4 := set_stack s2 (tl (d_stack s2))).
            unfold got; cbn [fst snd].
-           split; [apply (DInv_core_eq prog NF fm H D s2); [apply dcore_eq_stack | exact HI2]|].
+           split; [apply (DInv_core_eq prog NF fm H D F s2); [apply dcore_eq_stack | exact HI2]|].
            split; [eapply dext_trans; [exact He01|]; eapply dext_trans; [exact He2 | apply dext_set_stack]|].
            split.
            { eapply dtouch_trans with (k1 := 0%nat) (k2 := S (rank q));
@@ -728,7 +750,7 @@ Proof.
            split; [cbn; rewrite Hs2; reflexivity|].
            split; [exact Hm'|]. split; [exact Hv'|]. split; [congruence|].
            change (cur s1) with (cur s) in HE. rewrite HE.
-           apply (mo_val _ _ _ _ _ _ _ _ (inv_memo _ _ _ _ _ _ HI q m Hm)); exact Hv.
+           apply (mo_val _ _ _ _ _ _ _ _ _ (inv_memo _ _ _ _ _ _ _ HI q m Hm)); exact Hv.
         -- apply Hexec; try assumption. rewrite (Hfalse eq_refl). exact Hm.
       * intros p s2 Hx. eapply XP_trans; eassumption.
     + apply wp_bind, wp_ret.
@@ -759,10 +781,10 @@ Proof.
                                   | None => s' = s /\ not_valid_with_value s q
                                   end) (XP s) s).
       { intros u Hu Hne. apply wp_bind.
-        eapply wp_conseq; [apply (update_shallow_ok q m s u s (dext_refl _ _ _ _ s) HI Hm Hu Hne) | |intros; assumption].
+        eapply wp_conseq; [apply (update_shallow_ok q m s u s (dext_refl _ _ _ _ _ s) HI Hm Hu Hne) | |intros; assumption].
         intros m' s' (A & B & C & D0 & Hm' & Hv' & Hval' & _ & _ & HE).
         apply wp_ret. unfold got; cbn [fst snd]. conj; auto; try congruence.
-        rewrite HE. apply (mo_val _ _ _ _ _ _ _ _ (inv_memo _ _ _ _ _ _ HI q m Hm)); exact Hv. }
+        rewrite HE. apply (mo_val _ _ _ _ _ _ _ _ _ (inv_memo _ _ _ _ _ _ _ HI q m Hm)); exact Hv. }
       destruct (shallow_verify s m) eqn:Hsh.
       * apply Hgot; [reflexivity | discriminate].
       * apply Hgot; [reflexivity | discriminate].
@@ -798,7 +820,7 @@ Proof.
     set (s3 := set_lru s2 _).
     assert (Hce : dcore_eq s2 s3) by apply dcore_eq_lru.
     unfold fetch_post, memo_qres; cbn [fst snd].
-    split; [apply (DInv_core_eq prog NF fm H D s2); assumption|].
+    split; [apply (DInv_core_eq prog NF fm H D F s2); assumption|].
     split; [eapply dext_trans; [exact B | apply dext_of_core_eq; [exact Hce | reflexivity | auto]]|].
     split.
     { eapply dtouch_trans with (k1 := S (rank q)) (k2 := 0%nat);
@@ -831,7 +853,7 @@ Proof.
   apply wp_bind. unfold init_family. apply wp_modify.
   destruct (init_step s (fst q)) as (Hce0 & He0 & Hst0 & _).
   set (s0 := set_init s (updN (d_init s) (fst q) true)) in *.
-  assert (HI0 : DInv s0) by (apply (DInv_core_eq prog NF fm H D s); assumption).
+  assert (HI0 : DInv s0) by (apply (DInv_core_eq prog NF fm H D F s); assumption).
   eapply wp_conseq; [apply (fetch_rest_ok L n HF HM q s0 Hn HI0) | |].
   - intros p Hp. apply Hst. rewrite <- Hst0. exact Hp.
   - intros r s' (A & B & C & D0 & Hv & Hm). unfold fetch_post.
@@ -851,7 +873,7 @@ Proof.
   apply wp_bind. apply claim_ok; [exact Hst|].
   set (s1 := set_stack s (q :: d_stack s)).
   assert (Hce : dcore_eq s s1) by apply dcore_eq_stack.
-  assert (HI1 : DInv s1) by (apply (DInv_core_eq prog NF fm H D s); assumption).
+  assert (HI1 : DInv s1) by (apply (DInv_core_eq prog NF fm H D F s); assumption).
   assert (He01 : dext s s1) by apply dext_set_stack.
   assert (Hst1 : forall p, In p (d_stack s1) -> (rank q <= rank p)%nat) by (apply stacked; exact Hst).
   apply wp_bind, wp_get. change (d_memo s1 q) with (d_memo s q).
@@ -863,7 +885,7 @@ Proof.
   { intros b s2 HI2 He2 Ht2 Hs2 Hb.
     apply wp_bind. unfold release. apply wp_modify. apply wp_ret.
     unfold mca_post.
-    split; [apply (DInv_core_eq prog NF fm H D s2); [apply dcore_eq_stack | exact HI2]|].
+    split; [apply (DInv_core_eq prog NF fm H D F s2); [apply dcore_eq_stack | exact HI2]|].
     split; [eapply dext_trans; [exact He01|]; eapply dext_trans; [exact He2 | apply dext_set_stack]|].
     split.
     { eapply dtouch_trans with (k1 := 0%nat) (k2 := S (rank q));
@@ -883,7 +905,7 @@ Proof.
       * specialize (Hfalse eq_refl). change (d_memo s1 q) with (d_memo s q) in Hfalse.
         destruct (m_val old) as [ov|] eqn:Hov.
         -- apply wp_bind.
-           pose proof (dext_cur _ _ _ _ _ _ He2) as Hc2. change (cur s1) with (cur s) in Hc2.
+           pose proof (dext_cur _ _ _ _ _ _ _ He2) as Hc2. change (cur s1) with (cur s) in Hc2.
            eapply wp_conseq; [apply (execute_ok L n q s2 (Some old) HF Hn HI2) | |].
            ++ congruence.
            ++ intros m0 A B. injection A as <-. apply Hnv; [exact Hm | congruence].
@@ -910,14 +932,14 @@ Proof.
   intros q since s Hn HI Hst. unfold mca.
   apply wp_bind, wp_get.
   destruct (d_init s (fst q)) eqn:Hinit; cbn [negb].
-  2:{ apply wp_fail. split; [right; right; split; [reflexivity | exists (fst q); exact Hinit]|].
+  2:{ apply wp_fail. split; [right; split; [reflexivity | exists (fst q); exact Hinit]|].
       split; [exact HI | apply dext_refl]. }
   destruct (d_memo s q) as [m|] eqn:Hm.
   - assert (Hgot : forall u, shallow_verify s m = u -> u <> ShNo ->
               wp (m' <- update_shallow q m u ;; ret (changed_after (m_changed m') since))
                  (mca_post s q since) (XP s) s).
     { intros u Hu Hne. apply wp_bind.
-      eapply wp_conseq; [apply (update_shallow_ok q m s u s (dext_refl _ _ _ _ s) HI Hm Hu Hne) | |intros; assumption].
+      eapply wp_conseq; [apply (update_shallow_ok q m s u s (dext_refl _ _ _ _ _ s) HI Hm Hu Hne) | |intros; assumption].
       intros m' s' (A & B & C & D0 & Hm' & Hv' & _ & _ & Hch' & _).
       apply wp_ret. unfold mca_post. conj; auto.
       intros Hca. apply changed_after_false in Hca. exists m'. conj; auto. }
